@@ -639,7 +639,8 @@ func endToEnd() {
 	}
 	be := stack.NewBackend("A", "openai-compatible", true)
 	defer be.Close()
-	be.ModelsBody = func() []byte { return stack.OpenAIModels("m1") }
+	const mixedModel = "Org/Mx-7B-Instruct-Q4_K_M"
+	be.ModelsBody = func() []byte { return stack.OpenAIModels("m1", mixedModel) }
 	be.SetFixed(stack.OK(okCompletion))
 	o, err := stack.Boot(stack.Opts{Engine: "sherpa", Balancer: "priority", ModelDiscovery: true, Endpoints: []stack.EP{{B: be, Priority: 100}},
 		Mutate: func(c *config.Config) { c.Translators.Anthropic.PassthroughEnabled = false }})
@@ -677,7 +678,13 @@ func endToEnd() {
 			violate("invalid-request-not-400", map[string]any{"slice": "end-to-end"}, fmt.Sprintf("client: %s; backend requests: %d", r, len(be.Requests())), raw)
 		}
 	}
-	for _, raw := range raws {
+	for ri, raw := range raws {
+		wantModel := "m1"
+		if ri%2 == 1 {
+			// model names as they are in the wild: upper case, a slash, dots - the backend must be asked for exactly this name
+			wantModel = mixedModel
+			raw = strings.Replace(raw, `"model":"m1"`, `"model":"`+mixedModel+`"`, 1)
+		}
 		be.Reset()
 		r := stack.Do(o.Addr, &stack.Req{Method: "POST", Target: "/olla/anthropic/v1/messages", Body: []byte(raw), Headers: [][2]string{{"Content-Type", "application/json"}}, Timeout: 5 * time.Second})
 		res.Add("evaluations", 1)
@@ -694,6 +701,9 @@ func endToEnd() {
 		if err := decodeNum(reqs[0].Body, &doc); err != nil {
 			violate("upstream-body-not-json", map[string]any{"slice": "end-to-end"}, string(reqs[0].Body), raw)
 			continue
+		}
+		if gm, _ := doc["model"].(string); gm != wantModel {
+			violate("model-name-altered", map[string]any{"slice": "end-to-end"}, fmt.Sprintf("client asked for model %q, the backend was asked for %q", wantModel, gm), raw)
 		}
 		act, _ := actual(doc)
 		if itemsStr(act) != itemsStr(exp) {
